@@ -53,7 +53,8 @@ struct WorldSO : World, Net {
   Sink *rout = nullptr, *errs = nullptr;
   int remote_pid = 0, remote_status = -1; bool remote_done = false;
   // network script
-  struct HostAct { std::string kind = "accept"; int64_t delay = 0; };
+  struct HostAct { std::string kind = "accept"; int64_t delay = 0; bool immediate = false; };
+  bool earlier_phase = false;
   std::map<uint32_t, HostAct> hosts; bool relay = false;
   Reply greeting, helo, mail, data, dot; std::vector<Reply> rcpt_r;
   std::string wire;                  // everything the client sent on the accepted connection
@@ -115,9 +116,10 @@ struct WorldSO : World, Net {
     ConnectResult r; connect_order.push_back(ip);
     auto it = hosts.find(ip);
     if (it == hosts.end() || port != 25) { r.kind = K_REFUSED; return r; }
+    if (earlier_phase && plan->knobs.getb("earlier_all_timeout", false)) { r.kind = K_TIMEOUT; r.delay = 100000; return r; }   // the host was down then and is up now
     if (it->second.kind == "refuse") { r.kind = K_REFUSED; r.delay = it->second.delay; return r; }
     if (it->second.kind == "timeout") { r.kind = K_TIMEOUT; r.delay = 100000; return r; }
-    r.kind = K_ACCEPT; r.delay = it->second.delay;
+    r.kind = K_ACCEPT; r.delay = it->second.delay; r.immediate = it->second.immediate;
     Pipe *c2s = k->new_pipe("tcp c->s"), *s2c = k->new_pipe("tcp s->c"); c2s->cap = s2c->cap = 65536;
     r.rx = s2c; r.tx = c2s; accepted++;
     if (relay) {
@@ -160,6 +162,7 @@ struct WorldSO : World, Net {
       else if (u.compare(0, 4, "DATA") == 0) {
         saw_data = true; if (!say(data)) return 0;
         if (data.code >= 400) continue;
+        if (data.act == "noread") { k->probe("server_stops_reading"); k->block([] { return false; }, k->clock + data.stall, false); return 0; }   // says 354, then reads nothing more: the client's writes fill the connection and stop
         // read until the first CRLF.CRLF (or a payload that is just ".CRLF")
         for (;;) { size_t e = std::string::npos; if (buf.compare(0, 3, ".\r\n") == 0) e = 0; else { size_t f = buf.find("\r\n.\r\n"); if (f != std::string::npos) e = f + 2; }
           if (e != std::string::npos) { payload = buf.substr(0, e); buf.erase(0, e + 3); data_done = true; break; } if (!fill()) return 0; }
@@ -198,7 +201,7 @@ struct WorldSO : World, Net {
     for (auto &p : z["a"].o) for (auto &m : p.second.a) zone.a[p.first].push_back((uint32_t)m.i());
     for (auto &p : z["fail"].o) zone.fail[p.first] = p.second.str();
     if (!kn.has("zone")) { zone.a[host].push_back(0x0a010101); }
-    for (auto &p : kn["hosts"].o) { HostAct h; h.kind = p.second.gets("kind", "accept"); h.delay = p.second.geti("delay", 0); hosts[(uint32_t)strtoul(p.first.c_str(), 0, 10)] = h; }
+    for (auto &p : kn["hosts"].o) { HostAct h; h.kind = p.second.gets("kind", "accept"); h.delay = p.second.geti("delay", 0); h.immediate = p.second.getb("immediate", false); hosts[(uint32_t)strtoul(p.first.c_str(), 0, 10)] = h; }
     if (!kn.has("hosts")) hosts[0x0a010101] = HostAct();
     const Json &sv = kn["server"];
     greeting = reply_from(sv["greeting"], 220); helo = reply_from(sv["helo"], 250); mail = reply_from(sv["mail"], 250); data = reply_from(sv["data"], 354); dot = reply_from(sv["dot"], 250);
@@ -214,6 +217,7 @@ struct WorldSO : World, Net {
     std::vector<std::string> argv = {"qmail-remote", host, sender}; for (auto &r : rcpts) argv.push_back(r);
     // earlier attempts of the same delivery (separate qmail-remote processes, minutes apart): what they leave behind in
     // queue/lock/tcpto shapes the attempt that is judged
+    earlier_phase = true;
     for (int64_t er = 0; er < plan->knobs.geti("earlier_runs", 0); er++) {
       Sink *junk = k->new_sink("earlier-run");
       k->spawn(k->cp(), t.home + "/bin/qmail-remote", argv, {}, {{0, k->of_file(mp, O_RDONLY)}, {1, k->of_sink(junk)}, {2, k->of_sink(errs)}}, t.uids["qmailr"], t.gid_qmail, "/");
@@ -221,6 +225,7 @@ struct WorldSO : World, Net {
       k->block([] { return false; }, k->clock + plan->knobs.geti("earlier_gap_s", 150), false);
       k->probe("earlier_remote_run");
     }
+    earlier_phase = false;
     connect_order.clear();
     remote_last_event = k->clock;
     remote_pid = k->spawn(k->cp(), t.home + "/bin/qmail-remote", argv, {}, {{0, k->of_file(mp, O_RDONLY)}, {1, k->of_sink(rout)}, {2, k->of_sink(errs)}}, t.uids["qmailr"], t.gid_qmail, "/");
@@ -328,12 +333,24 @@ struct WorldSO : World, Net {
     int64_t tmo = plan->knobs.geti("timeoutremote", 1200);
     auto lost = [&](const Reply &r) { return r.act == "close" || r.act == "rst" || (r.act == "stall" && r.stall > tmo) || (r.act == "dribble" && false); };
     bool dns_fail = false; for (auto &f : zone.fail) if (f.first == host) dns_fail = true;
+    // qmail-remote(8): if this host is itself among the MX hosts, only hosts with a better (lower) preference may be tried - anything
+    // else is a mail loop - and if there is none the delivery fails permanently without any connection
+    bool ambig = false;
+    bool alloc_fired = false; for (auto &f : k->faults) if (f.fired && f.kind == "null") alloc_fired = true;   // (an allocation failure inside a lookup hides that MX host, this one included, like a soft failure does)
+    if (zone.mx.count(host)) { long prefme = 100000; std::map<uint32_t, long> best;
+      for (auto &m : zone.mx[host]) { if (zone.fail.count(m.second) && zone.fail[m.second] == "hard") continue;   /* a name that does not resolve at all offers nothing better; one that fails for the moment still might */
+        for (uint32_t ip : zone.a[m.second]) { if (!best.count(ip) || m.first < best[ip]) best[ip] = m.first; if (!zone.fail.count(m.second) && std::find(interfaces.begin(), interfaces.end(), ip) != interfaces.end() && m.first < prefme) prefme = m.first; } }   // (it can recognise itself only in an answer it got)
+      if (prefme < 100000) { k->probe("mx_set_contains_this_host");
+        if (!alloc_fired) for (auto ip : connect_order) { bool worse = true; for (auto &m : zone.mx[host]) for (uint32_t a2 : zone.a[m.second]) if (a2 == ip && m.first < prefme) worse = false; if (worse) { violate("C09.mx-loop", "qmail-remote connects to " + std::to_string(ip >> 24) + "." + std::to_string((ip >> 16) & 255) + "." + std::to_string((ip >> 8) & 255) + "." + std::to_string(ip & 255) + " although this host itself is an MX of preference " + std::to_string(prefme) + " and that one is no better"); return; } }
+        ambig = true; for (auto &b : best) if (b.second < prefme) ambig = false; } }
     if (dns_fail || !connected) {
       // no connection: temporary unless the name does not exist at all
       if (segs.empty()) { violate("C09.no-report", "qmail-remote printed nothing"); return; }
       char v = segs.back().empty() ? 0 : segs.back()[0];
       bool hard = zone.fail.count(host) && zone.fail[host] == "hard";
+      if (zone.mx.count(host) && !zone.mx[host].empty()) { bool all_hard = true; for (auto &m : zone.mx[host]) if (!(zone.fail.count(m.second) && zone.fail[m.second] == "hard")) all_hard = false; if (all_hard) hard = true; }   // none of the MX names exists: nowhere to send it, ever
       if (v == 'K') { violate("C09.success-without-connection", "no SMTP connection was established but qmail-remote reported " + outs); return; }
+      if (ambig) { if (!connect_order.empty()) violate("C09.mx-loop", "this host is the best MX and qmail-remote still connected somewhere: " + outs); k->probe("c09_best_mx_is_this_host"); return; }   // (documented as a permanent failure; not K is what the property needs)
       if (!hard && v != 'Z') { violate("C09.connect-trouble-not-temporary", "connection trouble must be a temporary failure; qmail-remote reported " + outs); return; }
       for (size_t i = 0; i + 1 < segs.size(); i++) if (!segs[i].empty() && segs[i][0] == 'r') { violate("C09.recipient-accepted-without-server", outs); return; }
       return;
@@ -349,7 +366,12 @@ struct WorldSO : World, Net {
     }
     bool partial = !msg.empty() && msg.back() != '\n' && msg.back() != '\r';
     if (!stop) { if (lost(data)) { fin = 'Z'; stop = true; } else if (data.code >= 500) { fin = 'D'; stop = true; } else if (data.code >= 400) { fin = 'Z'; stop = true; } }
+    // the server said 354 and then stopped reading: a message larger than the connection can hold never gets out (write times out:
+    // temporary, and the final dot was never sent); a small one goes out completely and its acknowledgement never comes
+    bool noread = data.act == "noread" && data.code < 400;
+    if (!stop && noread && msg.size() > 100000) { fin = 'Z'; stop = true; }
     if (!stop && partial) { fin = 'D'; stop = true; }
+    if (!stop && noread) { fin = 'Z'; dup_warn = true; stop = true; }
     if (!stop && data.act == "reply_rst") { fin = 'Z'; dup_warn = true; stop = true; }   // the write of the final dot itself fails: the dot may or may not have left
     if (!stop) { if (lost(dot)) { fin = 'Z'; dup_warn = true; } else if (dot.code >= 500) fin = 'D'; else if (dot.code >= 400) fin = 'Z'; else fin = 'K'; }
     // compare
